@@ -1,0 +1,36 @@
+//go:build verif
+
+package reload
+
+import (
+	"context"
+	"time"
+)
+
+// Verification hook for property C38 (add-only, no logic): exposes watchWithOptions with an
+// injected event watcher factory and reconcile interval. The debounce is a constant of this
+// package and cannot be injected; it is exported for the harness's timing.
+
+// VerifEventWatcher is the unexported eventWatcher interface.
+type VerifEventWatcher = eventWatcher
+
+const (
+	VerifDebounceDuration       = debounceDuration
+	VerifReconciliationInterval = reconciliationInterval
+)
+
+// VerifWatchWithOptions forwards to watchWithOptions.
+func VerifWatchWithOptions(
+	ctx context.Context,
+	path string,
+	cb func() error,
+	reconcileInterval time.Duration,
+	newWatcher func(string) (VerifEventWatcher, error),
+	attached func(),
+) error {
+	return watchWithOptions(ctx, path, cb, watchOptions{
+		reconcileInterval: reconcileInterval,
+		newWatcher:        newWatcher,
+		attached:          attached,
+	})
+}
